@@ -225,6 +225,8 @@ def instances(tier):
         out.append(Instance("single %s" % n, h_history((n,), 0), dict(kind="history", ops=[n], family=0)))
     for a, b in itertools.product(names, repeat=2):
         fam = (zlib.crc32((a + ";" + b).encode()) % 3) if q else 0  # (deterministic: str hashes are salted per process)
+        if q and a in ("client dry run", "profile") and b in ("client dry run", "profile"):
+            fam = 4  # two path-heavy operations: the family with a concrete User-Agent (their forks multiply otherwise)
         out.append(Instance("pair %s ; %s" % (a, b), h_history((a, b), fam), dict(kind="history", ops=[a, b], family=fam)))
     dup_ops = ["settings", "settings_by_index", "raw_settings", "raw_settings_by_index", "C2Http(aes+hmac)", "profile"]
     for a, b in itertools.product(dup_ops if q else names, repeat=2):
